@@ -125,3 +125,30 @@ func VerifMetaInfoGenerators() {
 	verif.Assert("same-info-hash", m1.InfoHash() == m2.InfoHash())
 	verif.Assert("same-digest", m1.Digest() == m2.Digest())
 }
+
+// VerifMetaInfoSerializeGlue: Serialize then DeserializeMetaInfo preserves
+// info hash, digest and piece layout. encoding/json and bencode work through
+// reflection and are NOT interpreted: the JSON text is replaced by an opaque
+// injective encoding of the four info fields and the info hash by an
+// uninterpreted function of them (engine models, see NOTES.md). What this
+// harness decides is therefore only the code around them: that Deserialize
+// rebuilds the hash from the decoded info and the digest from its Name.
+func VerifMetaInfoSerializeGlue() {
+	verif.Note("C02 round trip: encoding/json and bencode are modelled (opaque injective encoding / uninterpreted hash); only the surrounding code of Serialize/DeserializeMetaInfo is decided")
+	d, blob := verifC02Blob()
+	p := int64(verif.Len("piece_length", 1, 3))
+	m, err := NewMetaInfoFromBytes(d, blob, p)
+	verif.Assert("metainfo", err == nil)
+	b, err := m.Serialize()
+	verif.Assert("serialize", err == nil)
+	m2, err := DeserializeMetaInfo(b)
+	verif.Assert("deserialize", err == nil)
+	verif.Assert("round-trip-info-hash", m2.InfoHash() == m.InfoHash())
+	verif.Assert("round-trip-digest", m2.Digest() == m.Digest())
+	verif.Assert("round-trip-length", m2.Length() == m.Length())
+	verif.Assert("round-trip-piece-length", m2.PieceLength() == m.PieceLength())
+	verif.Assert("round-trip-piece-count", m2.NumPieces() == m.NumPieces())
+	for i := 0; i < m.NumPieces() && i < m2.NumPieces(); i++ {
+		verif.Assert("round-trip-piece-sum", m2.GetPieceSum(i) == m.GetPieceSum(i))
+	}
+}
